@@ -36,6 +36,18 @@ CLAIMED = {
         note="Trusted: sa/effects.py (persisted projection = keys the JSON encoder writes + map insertions), sa/extmodel.py. Not decided: the cross-thread window between the end of serialisation and the flag store.",
         ref="DESIGN.md section 4 C14",
     ),
+    "C07": dict(
+        technique="who-may-send rule: sink enumeration over the syntax tree plus classification of every sink event on every abstract path from the must-facts at that point; path analysis of the router",
+        text="Every outbound sink (11 sites: add_job call sites, transport.send sites, the return of Gateway.logic) is classified on every abstract path of Gateway.logic (all versions / families / flavours) and of set_child_value / check_connection as ROUTED, NOT-SLEEPING, FLUSH-to-the-waking-node, GATEWAY-ADDRESSED, INBOUND-DISPATCH, PUMP or RAW-API; an unclassifiable or new sink is a violation. All paths of _route_message return a message only for an unknown / awake node or a stream message and otherwise append its encoding to the queue of the same node the sleeping test read. The hold queue is popped only by the flush, which is entered exactly from the wake-up announcement of each version for a known node. The rule is per message and therefore independent of arrival order.",
+        note="Trusted: must-facts of sa/interp.py, INV-KEY-ID (sensors[k].sensor_id == k, checked by C01-INV). The public Gateway.send() is the documented raw escape hatch and is classified RAW-API. Not decided: timing of the burst.",
+        ref="DESIGN.md section 4 C07",
+    ),
+    "C08": dict(
+        technique="access-kind scan of the two queues (AST) and trace predicates over all abstract paths of the flush, update_child_value, get_desired_value and set_child_value",
+        text="Structural clauses of ordered exactly-once delivery: both queues are append/popleft only; on every abstract path the flush drains the hold queue until empty, enqueues each popped reply exactly once in pop order and strictly before the desired-value commands, and builds one set command per reported value type from the iterated child, that type and the pending desired value (None skipped); a reported value clears exactly the desired entry of the same (child, value type) and nothing else clears one; value requests answer the pending desired value before the reported one; a desired value is recorded only after the flush's own constructor built and validated the command for the same arguments (accepted implies deliverable), and neither the flush nor the lookup can raise.",
+        note="Counting over arbitrary histories (exactly-once as a global count) is not decided; the clauses are the per-step invariants from which it follows by induction. Trusted: sa/extmodel.py deque/dict models.",
+        ref="DESIGN.md section 4 C08",
+    ),
 }
 
 NOT_APPLICABLE = {
